@@ -116,6 +116,10 @@ Proof. reflexivity. Qed.
 Theorem tie_sync : run (g_sync_index E) s = Some (tt, s, [ix]) /\ run (g_sync_index_async E) s = Some (tt, s, [ix]).
 Proof. split; reflexivity. Qed.
 
+(** [attach] (both wrappers): one publication of the local index, nothing else *)
+Theorem tie_attach : run (g_attach E) s = Some (tt, s, [ix]) /\ run (g_attach_async E) s = Some (tt, s, [ix]).
+Proof. split; reflexivity. Qed.
+
 (** [go_back] (after fix F2): defined whenever the move stays within one lap, and then lands on [wsub] *)
 Theorem tie_go_back n : n <= len -> ca + n < usize_max ->
   run (g_go_back E n) s = Some (tt, mkL (wsub len ix n) (ca + n), []) /\
